@@ -60,6 +60,14 @@ def judge (viaStore : Bool) (p : List UInt8) (types : List Nat) (lfs : List (Str
   let total := p.length
   let via := if viaStore then "store-" else ""
   let ctx := s!"total={total} frags={showR fs} able={able} res={res.take 40}"
+  -- level "x": pieces of the payload whose announced total length is smaller than where they end — not fragments of
+  -- any bundle; a set with one of them is "something else" and has to be refused
+  if lfs.any (fun (l, _) => l == "x") then
+    if able == "panic" || res == "panic" then s!"specfail {via}panic-in-reassembly-beyond-total {ctx}"
+    else if able == "yes" || res.startsWith "ok:" then s!"specfail {via}fragments-beyond-total-accepted {ctx}"
+    else if isReassemblable maxEnd fs then s!"diff able model=true impl={able} {ctx}"
+    else "ok"
+  else
   -- the fragments themselves must be fragments of the original (C09 / D2)
   match lfs.find? (fun (_, f) => f.isFrag && !decide (FragOf p f)) with
   | some (lvl, f) =>
